@@ -702,10 +702,12 @@ func checkC06(w *World, r *Report) {
 		inc := w.Nodes(g, Ev{Name: evInc.Name, M: evInc.M, Shallow: true}, false)
 		for _, ci := range w.callsIn(pr.restartFn, evStart) {
 			n := g.idx[ci.(ssa.Instruction)]
-			key := fmt.Sprintf("%s:Start[%s]", fname(pr.restartFn), guardDesc(w, g, n))
-			ok := g.OnlyVia(within, n) && g.Before(inc, n)
-			r.Check(ok, "C06.R1", key, "this restart is on the within-budget edge and is counted", w.pos(ci.Pos()),
-				"Start is reachable without passing the budget check or without incrementing restarts: this path restarts the actor without bound")
+			for _, pc := range pathClasses(w, g, n) {
+				key := fmt.Sprintf("%s:Start[%s]", fname(pr.restartFn), pc.desc)
+				ok := pc.onlyVia(g, within, n) && pc.before(g, inc, n)
+				r.Check(ok, "C06.R1", key, "this restart is on the within-budget edge and is counted", w.pos(ci.Pos()),
+					"Start is reachable without passing the budget check or without incrementing restarts: this path restarts the actor without bound")
+			}
 		}
 		okX := true
 		detail := ""
